@@ -105,6 +105,9 @@ def gen_select(rng):
         tl.append(f'{e} as c{i}' if rng.random() < 0.7 or not re.fullmatch(r'\w+\.\w+', e) else e)
     if rng.random() < 0.15:
         tl.append(f'{bex(rng, aliases, 2)} as p')
+    if rng.random() < 0.2:
+        # string constants: what the rendered literal denotes on the target must be the value in the tree
+        tl.append(rng.choice(["'x'", "'a b'", "'C:\\tmp'", "'it''s'", "'100%'", "':p'", "'a\\\\b'", "'%(x)s'", "'tab\there'", "'q?'"]) + ' as k')
     targets = '*' if star else ', '.join(tl)
     distinct = 'distinct ' if rng.random() < 0.12 else ''
     sql = f'select {distinct}{targets} from {frm}'
@@ -191,6 +194,7 @@ EDGE = [
     "select a, b from int1.t1 union all select a, b from int2.t2",
     "select * from int1.t1 where t1.a - -t1.b > 0",
     "select * from int1.t1 where -(-t1.a) = 1",
+    "select 'C:\\tmp' as k, t1.a from int1.t1", "select 'it''s' as k, 'a\\\\b' as j from int1.t1 where t1.a = 1",
 ]
 
 DML = [
